@@ -1302,8 +1302,11 @@ PPL::Grid::add_grid_generator(const Grid_Generator& g) {
   }
   else {
     PPL_ASSERT(generators_are_up_to_date());
+    // Note: `g' may be a row of `gen_sys' itself (invalidated by
+    // the insertion): inspect it before inserting.
+    const bool g_is_parameter_or_point = g.is_parameter_or_point();
     gen_sys.insert(g);
-    if (g.is_parameter_or_point()) {
+    if (g_is_parameter_or_point) {
       normalize_divisors(gen_sys);
     }
   }
